@@ -113,9 +113,9 @@ def judge_sample(x_list, qs, failures, h, tag, forms=('list', 'array', 'farray')
             if form == forms[0]:
                 if prev is not None and (d1 > prev[0] or d2 < prev[1]):
                     failures.append(Fail('csep.utils.stats.get_quantiles|monotone|any',
-                                         f'not monotone in v at v={v}: {prev}->{(d1, d2)} x={x_list[:12]}',
-                                         dict(kind='single', x=x_list, v=v, form=form)))
-                prev = (d1, d2)
+                                         f'not monotone in v: v={prev[2]} -> {prev[:2]}, v={v} -> {(d1, d2)} x={x_list[:12]}',
+                                         dict(kind='mono', x=x_list, vs=[prev[2], v], form=form)))
+                prev = (d1, d2, v)
     return evals, nontriv
 
 
@@ -152,6 +152,12 @@ def run_case(case):
         nontriv += nt
         states += 1
         sample = dict(structured=dict(n=n, m=m), queries=qs)
+    elif case['kind'] == 'mono':
+        e, nt = judge_sample(case['x'], case['vs'], failures, h, 'single', forms=(case['form'],))
+        evals += e
+        nontriv += nt
+        states += 1
+        sample = case
     else:  # single replay
         e, nt = judge_sample(case['x'], [case['v']], failures, h, 'single', forms=(case['form'],))
         evals += e
